@@ -4449,7 +4449,12 @@ impl JsrPackageVersionInfoExt {
   pub fn get_subpath<'a>(&self, specifier: &'a Url) -> Option<&'a str> {
     let base_url = self.base_url.as_str();
     let base_url = base_url.strip_suffix('/').unwrap_or(base_url);
-    specifier.as_str().strip_prefix(base_url)
+    // the sub path must start at a path segment boundary, otherwise a url
+    // of another version such as `1.0.0-rc.1/` would be attributed to `1.0.0`
+    specifier
+      .as_str()
+      .strip_prefix(base_url)
+      .filter(|sub_path| sub_path.starts_with('/'))
   }
 
   pub fn get_checksum(&self, sub_path: &str) -> Result<&str, ModuleLoadError> {
